@@ -24,7 +24,7 @@ RULE = (
     "dominated entry; distinct = distinct operation sequences / trajectory digests"
 )
 ASSUMPTIONS = ["finite, non-nan pairs only (the property speaks of finite sequences of pairs)"]
-TIERS = {"quick": {"worlds": 4000, "wall": 150, "limit": 60.0}, "thorough": {"worlds": 100000, "wall": 1700, "limit": 120.0}}
+TIERS = {"quick": {"worlds": 6000, "wall": 150, "limit": 60.0}, "thorough": {"worlds": 100000, "wall": 1700, "limit": 120.0}}
 GATES = ("nontrivial", "ops.insert", "ops.update", "ops.refused", "ops.removed_dominated", "ops.ties", "live.updates", "live.vetoes")
 
 
